@@ -1,6 +1,6 @@
 import FlytModel.Generated.IR
 import FlytModel.Expected.IR
-/-! The translation of `Flow_Connect` from the CURRENT source is, term for term, the IR the refinement theorems are about. -/
+/-! The translation of `Flow_Connect` from the CURRENT source is, term for term, the expected IR. -/
 namespace Flyt.Tie
 theorem Flow_Connect : Flyt.Generated.IR.Flow_Connect = Flyt.Expected.IR.Flow_Connect := rfl
 end Flyt.Tie
